@@ -263,12 +263,14 @@ partial def stepCodec (st : TmplSt) (cs : CodecSt) (toks : List String) : Option
   | ["dd.list", k] =>
     match k.toNat? with
     | some k => match cs.decoded[k]? with
+      | some [] => some (st, cs, "none")       -- allocated, never filled
       | some ns => some (st, cs, fmtNodes ns)
       | none => some (st, cs, "none")
     | none => some (st, cs, "bad-op")
   | ["dd.vals", k] =>
     match k.toNat? with
     | some k => match cs.decoded[k]? with
+      | some [] => some (st, cs, "none")
       | some ns => some (st, cs, fmtVals ns)
       | none => some (st, cs, "none")
     | none => some (st, cs, "bad-op")
